@@ -1415,8 +1415,11 @@ reply_parse(struct evdns_base *base, u8 *packet, int length)
 			break;
 		} else if (type == TYPE_CNAME) {
 			char cname[EVDNS_NAME_MAX];
-			if (name_parse(packet, length, &j, cname,
-				sizeof(cname))<0)
+			/* the text is only needed (and then must be faithful)
+			 * when somebody asked for the CNAME */
+			if (name_parse_(packet, length, &j, cname,
+				sizeof(cname), req->need_cname ||
+				req->put_cname_in_ptr != NULL)<0)
 				goto err;
 			if (req->need_cname) {
 				/* keep only the last CNAME of a chain */
